@@ -31,6 +31,9 @@ ASSUMPTIONS = [
 ]
 TRUSTED = ["the adapter's temporary-file handling (tempfile.mkdtemp, read_bytes after each call)"]
 EXPLORED_ONLY = [
+    "a count the caller itself puts outside [0, 2^w - 1] (SeqCountProvider.count attribute, or narrowing max_bit_width "
+    "below the running count) is returned once by the in-memory provider before it wraps; the file provider refuses such "
+    "content with ValueError.  Modelled faithfully, not judged by the oracle (the property's histories contain no setter)",
     "non-ASCII file content (Unicode digits are accepted by str.isdigit and int; invalid UTF-8 raises UnicodeDecodeError, "
     "a ValueError): explored on the implementation only with the oracle 'ValueError, or a count in range and a valid file "
     "afterwards' (stream explored_non_ascii); outside the model's alphabet, not proved",
@@ -461,7 +464,7 @@ def streams(tier, rng):
     for n in range(0, 3901 if big else 1101):
         # (the long all-digit numeral costs the extracted model ~n^2: sampled near the multiples of 256 only)
         near = n < 40 or min(n % 256, 256 - n % 256) <= 8
-        kinds = [0, 1, 3] + ([2] if (big or near or n % 32 == 0) else [])
+        kinds = [0, 1, 3] + ([2] if ((near and n <= 2100) or n % (64 if big else 32) == 0) else [])
         for kind in kinds:
             c = [b"0" * n + b"5\n", b"6" + b" \t"[n % 2:n % 2 + 1] * n + b"\n", b"9" * n + b"\n", b"3\n" + b"x" * n][kind]
             cases.append((301, [[rng.choice([3, 14, 64])], _file_arg(c), [2], [1], [0], [1]]))
